@@ -51,6 +51,7 @@ const (
 	kFeeDeleg
 	kTransferName
 	kSetOwner
+	kEnterprise
 	// adversarial (C04)
 	kBadSig     = 20
 	kWrongChain = 21
@@ -102,6 +103,9 @@ func (w *World) Run(x *simkit.Ctx) {
 	// governance-focused runs: equal stakes and parameter votes on one issue in two written forms,
 	// so that tallies tie and the ranking's tie-break meets candidates of every length
 	govfocus := x.CfgInt("govfocus", func(r *simkit.Rng) int { return r.Pick(4, 1) }) == 1
+	// enterprise-focused runs (private chains only): well-formed admin / configuration transactions in
+	// sequences (become admin, switch a list on and off, fill and empty it, use it again in a later block)
+	entfocus := x.CfgInt("entfocus", func(r *simkit.Rng) int { return r.Pick(3, 1) }) == 1 && !public
 	sched := x.CfgInt("sched", func(r *simkit.Rng) int { return int(r.U64() >> 33) })
 	reexec := x.CfgInt("reexec", func(r *simkit.Rng) int {
 		if x.Case.Tier == "thorough" {
@@ -201,6 +205,10 @@ func (w *World) Run(x *simkit.Ctx) {
 			case kVoteDAO:
 				v = int64(4*r.Intn(2) + 8*r.Pick(2, 2, 1, 1)) // BPCOUNT, either value, plain / 39 / 40 characters / '+'
 			}
+		}
+		if entfocus && r.Chance(1, 2) {
+			kind, s = kEnterprise, ""
+			v = int64(r.Intn(1 << 20))
 		}
 		return &simkit.Step{Op: "tx", K: []int{from, to, kind, nd}, V: v, S: s, C: int(e.valSeq)}
 	}
@@ -480,6 +488,32 @@ func (e *env) buildTx(st *simkit.Step) (tx *types.Tx, adversarial string) {
 		}
 		n := uint64(1 + int(st.V)%int(e.chainN[from]))
 		return simnode.SignedTx(acc, n, net.Accounts[to].Addr, amt, types.TxType_TRANSFER, nil, cid, 0), "nonce already used on chain"
+	case kEnterprise:
+		v := int(st.V)
+		key := []string{"ACCOUNTWHITE", "P2PWHITE", "P2PBLACK", "RPCPERMISSIONS"}[v%4]
+		addr := types.EncodeAddress(net.Accounts[to].Addr)
+		val := addr
+		if v%4 != 0 {
+			val = []string{"v1", "v2", addr}[(v/4)%3]
+		}
+		var pl string
+		switch (v / 16) % 8 {
+		case 0, 1:
+			pl = `{"Name":"appendAdmin","Args":["` + types.EncodeAddress(acc.Addr) + `"]}`
+		case 2:
+			pl = `{"Name":"enableConf","Args":["` + key + `",` + []string{"true", "false"}[(v/128)%2] + `]}`
+		case 3:
+			pl = `{"Name":"setConf","Args":["` + key + `","` + val + `"]}`
+		case 4:
+			pl = `{"Name":"appendConf","Args":["` + key + `","` + val + `"]}`
+		case 5:
+			pl = `{"Name":"removeConf","Args":["` + key + `","` + val + `"]}`
+		case 6:
+			pl = `{"Name":"removeAdmin","Args":["` + addr + `"]}`
+		default:
+			pl = `{"Name":"setConf","Args":["` + key + `"]}`
+		}
+		return gov(types.AergoEnterprise, pl, new(big.Int)), ""
 	case kGovPayload:
 		rcp := []string{types.AergoSystem, types.AergoName, types.AergoEnterprise}[int(st.V)%3]
 		return gov(rcp, st.S, amt), ""
